@@ -26,6 +26,7 @@
 #include <stdint.h>
 #include <signal.h>
 #include <unistd.h>
+#include <pthread.h>
 #include "myth/myth.h"
 #include "myth_config.h"
 #include "myth_sched_func.h"
@@ -262,6 +263,17 @@ static void on_signal(int sig) {
   _exit(128 + sig);
 }
 
+/* a native thread: the library may use SIGALRM itself */
+static void * watchdog(void * a) {
+  int i;
+  (void)a;
+  for (i = 0; i < 100; i++) usleep(100000);
+  recording = 0;
+  dump("hang");
+  _exit(124);
+  return 0;
+}
+
 int main(int argc, char ** argv) {
   int i;
   static char altstack[1 << 16];
@@ -271,11 +283,10 @@ int main(int argc, char ** argv) {
   ss.ss_sp = altstack; ss.ss_size = sizeof(altstack); ss.ss_flags = 0;
   sigaltstack(&ss, 0);
   memset(&sa, 0, sizeof(sa)); sa.sa_handler = on_signal; sa.sa_flags = SA_ONSTACK;
-  sigaction(SIGSEGV, &sa, 0); sigaction(SIGBUS, &sa, 0); sigaction(SIGABRT, &sa, 0); sigaction(SIGALRM, &sa, 0);
-  sigaction(SIGILL, &sa, 0);
-  alarm(60);
+  { pthread_t wd; pthread_create(&wd, 0, watchdog, 0); }
   g_myth_verif_cb = cb;
   myth_init();
+  sigaction(SIGSEGV, &sa, 0); sigaction(SIGBUS, &sa, 0); sigaction(SIGABRT, &sa, 0); sigaction(SIGILL, &sa, 0);
   recording = 1;
   for (i = 1; i < argc; i++) {
     const char * op = argv[i];
